@@ -537,8 +537,16 @@ var solvers = []solverSpec{
 var solverSem = make(chan struct{}, 16)
 
 func runOne(sp solverSpec, script string, timeoutMs int, ctx context.Context) (string, string) {
+	st, raw, _ := runOneT(sp, script, timeoutMs, ctx)
+	return st, raw
+}
+
+// runOneT also returns the time the solver process itself ran (queueing for a slot excluded).
+func runOneT(sp solverSpec, script string, timeoutMs int, ctx context.Context) (st string, raw string, dur time.Duration) {
 	solverSem <- struct{}{}
 	defer func() { <-solverSem }()
+	t0 := time.Now()
+	defer func() { dur = time.Since(t0) }()
 	c, cancel := context.WithTimeout(ctx, time.Duration(timeoutMs+2000)*time.Millisecond)
 	defer cancel()
 	argv := sp.argv(timeoutMs)
@@ -552,48 +560,54 @@ func runOne(sp solverSpec, script string, timeoutMs int, ctx context.Context) (s
 	first := strings.TrimSpace(strings.SplitN(s, "\n", 2)[0])
 	switch first {
 	case "unsat", "sat", "unknown":
-		return first, s
+		return first, s, 0
 	case "timeout":
-		return "timeout", s
+		return "timeout", s, 0
 	}
 	if c.Err() != nil {
-		return "timeout", s
+		return "timeout", s, 0
 	}
 	if strings.Contains(s, "timeout") || strings.Contains(s, "interrupted") {
-		return "timeout", s
+		return "timeout", s, 0
 	}
-	return "error", s
+	return "error", s, 0
 }
 
 // solve races the solvers. quantified goals put z3 first; cvc5 is skipped for
 // scripts it cannot parse. A result counts only if it is unsat or sat.
 func solve(script string, timeoutMs int, all bool) SolverResult {
 	start := time.Now()
+	var stage1 time.Duration
 	if !all {
 		// stage 1: the cheapest solver alone with a short cap; most obligations end here
 		cap1 := 1500
 		if timeoutMs < cap1 {
 			cap1 = timeoutMs
 		}
-		st, raw := runOne(solvers[1], script, cap1, context.Background())
+		st, raw, d := runOneT(solvers[1], script, cap1, context.Background())
 		if st == "unsat" || st == "sat" {
 			r := SolverResult{Status: st, Solver: "z3", Raw: raw, All: map[string]string{"z3": st}}
 			if st == "sat" {
 				r.Model = raw
 			}
-			r.Elapsed = time.Since(start)
+			r.Elapsed = d
 			return r
 		}
+		stage1 = d
 	}
 	r := solveRace(script, timeoutMs, all)
-	r.Elapsed = time.Since(start)
+	r.Elapsed = stage1 + r.Elapsed
+	_ = start
 	return r
 }
 
 func solveRace(script string, timeoutMs int, all bool) SolverResult {
 	ctx, cancel := context.WithCancel(context.Background())
 	defer cancel()
-	type res struct{ name, status, raw string }
+	type res struct {
+		name, status, raw string
+		dur               time.Duration
+	}
 	ch := make(chan res, len(solvers))
 	n := 0
 	for _, sp := range solvers {
@@ -604,14 +618,17 @@ func solveRace(script string, timeoutMs int, all bool) SolverResult {
 		}
 		n++
 		go func() {
-			st, raw := runOne(sp, sc, timeoutMs, ctx)
-			ch <- res{sp.name, st, raw}
+			st, raw, d := runOneT(sp, sc, timeoutMs, ctx)
+			ch <- res{sp.name, st, raw, d}
 		}()
 	}
 	out := SolverResult{Status: "unknown", All: map[string]string{}}
 	for i := 0; i < n; i++ {
 		r := <-ch
 		out.All[r.name] = r.status
+		if r.dur > out.Elapsed {
+			out.Elapsed = r.dur
+		}
 		if r.status == "unsat" || r.status == "sat" {
 			if out.Status == "unsat" || out.Status == "sat" {
 				if out.Status != r.status {
